@@ -62,7 +62,10 @@ REWRITES (each a rewrite object; a lost pattern is UNDECIDED)
           it.enumerate().filter_map(|(j, sub)| BODY))` = collect + `Threshold::new` for MAX = 0); `.sum()` / `.fold(0, +)` of odds -> uninterpreted usize
   R6      `enumerate_leaves(.., expand_fn)` (fn pointer) -> one instance per expansion function
   R9      And arm of enumerate_pol_native (recursion + enumerate/filter/map closures + Vec::insert): excluded, not claimed
-  R10     loop invariants / decreases / ghost snapshots / lemma calls; `for (prob, script) in ms` gets a name for its iterator
+  R10     loop invariants / decreases / ghost snapshots / lemma calls; `for (prob, script) in ms` gets a name for its iterator.  with_huffman_tree is annotated by
+          STRUCTURE (huffman_annotate: the for loop and its heap push, the while loop over node_weights.len(), its two `let (_, TREE) = node_weights.pop()..`
+          and its heap push; local names read off the text); TapTree::combine's chain loop takes the element pattern, the order of the two trees and the
+          accumulator name from the text (`&(d, ref l)` against `&place` -> `(d, ref l)` against `place`, R3)
   R12     `.map_err(CompilerError::PolicyError)` eta-expanded; `a.min(b)` -> if/else
 """
 import re
@@ -816,28 +819,40 @@ proof fn lemma_tree_single<Pk: MiniscriptKey>(t: TapTree<Pk>, m: Leaf<Pk>)
 
 @rule("R8-chain-of-two-slices")
 def combine_chain_loop(text):
-    """R8: `for PAT in A.iter().chain(B.iter()) { BODY }` -> the loop over A followed by the loop over B, BODY verbatim in both (std `Chain`:
-    all elements of the first iterator, then all of the second)."""
-    from vlib.extract import Region
-    reg = Region("<text>", text, 0, len(text))
-    try:
-        b = reg._find_block("for (depth, leaf) in left.depths_leaves.iter().chain(right.depths_leaves.iter())")
-    except Exception:
+    """R8: `for PAT in A.depths_leaves.iter().chain(B.depths_leaves.iter()) { BODY }` -> the loop over A followed by the loop over B, BODY verbatim
+    in both (std `Chain`: all elements of the first iterator, then all of the second).  Read off the text, not fixed: the element pattern PAT
+    (`(depth, leaf)` binds through the reference; `&(d, ref l)` is R3: matching `&P` against `&place` is matching `P` against `place`; Verus has
+    no reference patterns), which tree comes first (A, B) and the name of the accumulator the body pushes to."""
+    m = re.search(r"\bfor\s+(\S(?:[^{};]*?\S)?)\s+in\s+(\w+)\s*\.\s*depths_leaves\s*\.\s*iter\(\)\s*\.\s*chain\(\s*(\w+)\s*\.\s*depths_leaves\s*\.\s*iter\(\)\s*\)\s*\{", text)
+    if not m:
         return None
-    body = text[b.start:b.end]
+    pat, first, second = m.group(1), m.group(2), m.group(3)
+    if {first, second} != {"left", "right"}:
+        return None
+    b_open = m.end() - 1
+    b_close = match_close(text, b_open)
+    body = text[b_open + 1:b_close]
+    accs = set(re.findall(r"\b(\w+)\s*\.\s*push\s*\(", body))
+    if len(accs) != 1:
+        return None
+    acc = accs.pop()
+    if pat.startswith("&"):
+        bind = "let %s = cmb_%%(w)s[cmb_i];" % pat[1:].strip()
+    else:
+        bind = "let %s = &cmb_%%(w)s[cmb_i];" % pat
 
     def loop(src, which, base, done):
         return ("let cmb_%(w)s = %(src)s.depths_leaves.as_slice();\n        let mut cmb_i: usize = 0;\n        while cmb_i < cmb_%(w)s.len()\n"
                 "            invariant\n                cmb_i <= cmb_%(w)s@.len(), cmb_%(w)s@ == %(src)s.depths_leaves@,\n"
-                "                depths_leaves@.len() == %(base)s + cmb_i,\n%(done)s"
+                "                %(acc)s@.len() == %(base)s + cmb_i,\n%(done)s"
                 "                forall|q: int| 0 <= q < cmb_i ==> (#[trigger] %(src)s.depths_leaves@[q]).0 <= 127, //@inv no_leaf_is_pushed_below_depth_128 [C08]\n"
-                "                forall|q: int| 0 <= q < cmb_i ==> #[trigger] depths_leaves@[%(idx)s] == ((%(src)s.depths_leaves@[q].0 + 1) as u8, %(src)s.depths_leaves@[q].1),\n"
-                "            decreases cmb_%(w)s@.len() - cmb_i\n        {\n            let (depth, leaf) = &cmb_%(w)s[cmb_i];\n"
-                "            %(body)s\n            cmb_i += 1;\n        }\n") % dict(w=which, src=src, base=base, done=done, body=body.strip(), idx=("q" if base == "0" else base + " + q"))
-    left_done = ("                forall|q: int| 0 <= q < left.depths_leaves@.len() ==> (#[trigger] left.depths_leaves@[q]).0 <= 127,\n"
-                 "                forall|q: int| 0 <= q < left.depths_leaves@.len() ==> #[trigger] depths_leaves@[q] == ((left.depths_leaves@[q].0 + 1) as u8, left.depths_leaves@[q].1),\n")
-    return (text[:b.stmt_start] + loop("left", "l", "0", "") + "        " + loop("right", "r", "left.depths_leaves@.len()", left_done)
-            + "        proof { lemma_combined(left, right, depths_leaves@); }\n" + text[b.stmt_end:])
+                "                forall|q: int| 0 <= q < cmb_i ==> #[trigger] %(acc)s@[%(idx)s] == ((%(src)s.depths_leaves@[q].0 + 1) as u8, %(src)s.depths_leaves@[q].1),\n"
+                "            decreases cmb_%(w)s@.len() - cmb_i\n        {\n            " + bind + "\n"
+                "            %(body)s\n            cmb_i += 1;\n        }\n") % dict(w=which, src=src, base=base, done=done, body=body.strip(), acc=acc, idx=("q" if base == "0" else base + " + q"))
+    first_done = ("                forall|q: int| 0 <= q < %(f)s.depths_leaves@.len() ==> (#[trigger] %(f)s.depths_leaves@[q]).0 <= 127,\n"
+                  "                forall|q: int| 0 <= q < %(f)s.depths_leaves@.len() ==> #[trigger] %(acc)s@[q] == ((%(f)s.depths_leaves@[q].0 + 1) as u8, %(f)s.depths_leaves@[q].1),\n") % dict(f=first, acc=acc)
+    return (text[:m.start()] + loop(first, "l", "0", "") + "        " + loop(second, "r", "%s.depths_leaves@.len()" % first, first_done)
+            + "        proof { lemma_combined(%s, %s, %s@); }\n" % (first, second, acc) + text[b_close + 1:])
 
 
 COMBINE_LEMMA = r"""
@@ -880,48 +895,124 @@ def partial_expect(call_re, name, required=True):
     return rw
 
 
-def huffman_rewrites(partial):
+def _top_level_split(inner):
+    """split the text between a pair of parentheses at its top-level commas"""
+    out, depth, cur = [], 0, ""
+    for ch in inner:
+        if ch in "([{<":
+            depth += 1
+        elif ch in ")]}>":
+            depth -= 1
+        if ch == "," and depth == 0:
+            out.append(cur.strip())
+            cur = ""
+        else:
+            cur += ch
+    if cur.strip():
+        out.append(cur.strip())
+    return out
+
+
+def _heap_pushes(text, lo, hi):
+    """the statements `node_weights.push(ARG);` in text[lo:hi]: list of positions right after the `;`"""
+    out = []
+    for m in re.finditer(r"\bnode_weights\s*\.\s*push\s*\(", text[lo:hi]):
+        close = match_close(text, lo + m.end() - 1)
+        m2 = re.match(r"\s*;", text[close + 1:hi])
+        if m2:
+            out.append(close + 1 + m2.end())
+    return out
+
+
+def _heap_pops(text, lo, hi):
+    """the statements `let (PAT, TREE) = node_weights.pop().expect("..");` (or `.unwrap()`) in text[lo:hi], whatever PAT destructures
+    (`p1`, `Reverse(OrdF64(prob1))`, `_`): list of (position right after the `;`, TREE)"""
+    out = []
+    for m in re.finditer(r"\blet\s*\(", text[lo:hi]):
+        op = lo + m.end() - 1
+        close = match_close(text, op)
+        m2 = re.match(r"\s*=\s*node_weights\s*\.\s*pop\s*\(\s*\)\s*\.\s*(?:expect\s*\(\s*\"[^\"]*\"\s*\)|unwrap\s*\(\s*\))\s*;", text[close + 1:hi])
+        if not m2:
+            continue
+        parts = _top_level_split(text[op + 1:close])
+        if len(parts) != 2 or not re.match(r"^[A-Za-z_]\w*$", parts[1]) or parts[1] == "_":
+            return None
+        out.append((close + 1 + m2.end(), parts[1]))
+    return out
+
+
+def huffman_annotate(partial):
+    """R10 (insertion only) for with_huffman_tree, anchored on STRUCTURE: the `for (P, S) in ms {..}` loop with its single heap push, the
+    `while <condition over node_weights.len()> {..}` loop with its two `let (_, TREE) = node_weights.pop().expect(..)` and its single heap push
+    (whatever is pushed: the combined tree inline or a local holding it), the end of the while loop.  The names of the locals are read off the
+    text; loop conditions, patterns and pushed expressions stay verbatim.  partial=False: the panic-freedom instance (only what
+    `pop().expect(..)` / `assert!` / `debug_assert!` need)."""
     GH = "heap_ms(node_weights@) =~= input_ms(ms@)"
+
+    @rule("R10-huffman-annotations(for-invariant, after-push, while-invariant, after-pop-1, after-pop-2, after-combine, after-loop)")
+    def rw(text):
+        ins = []
+        # ---- the `for` over the input vector gets a name for its iterator and an invariant
+        mf = re.search(r"\bfor\s+\(\s*(\w+)\s*,\s*(\w+)\s*\)\s+in\s+(ms)\s*(\{)", text)
+        if not mf:
+            return None
+        script = mf.group(2)
+        f_open = mf.start(4)
+        f_close = match_close(text, f_open)
+        ins.append((mf.start(3), "hf_it: "))
+        if not partial:
+            ins.append((f_open, "\n        invariant\n            node_weights@.len() == hf_it.index@, hf_it.index@ <= ms@.len(),\n    "))
+        else:
+            pushes = _heap_pushes(text, f_open + 1, f_close)
+            if len(pushes) != 1:
+                return None
+            ins.append((mf.start(), "proof { lemma_input_push(ms@, 0); }\n    "))
+            ins.append((f_open, "\n        invariant\n            node_weights@.len() == hf_it.index@, hf_it.index@ <= ms@.len(),\n"
+                        "            heap_ms(node_weights@) =~= input_ms(ms@.take(hf_it.index@ as int)), //@inv every_input_leaf_enters_the_heap_once [C08]\n"
+                        "            heap_fits(node_weights@), heap_cnt(node_weights@) == hf_it.index@,\n    "))
+            ins.append((f_open + 1, "\n        let ghost hw0 = node_weights@;\n        proof { lemma_input_push(ms@, hf_it.index@ as int); }"))
+            ins.append((pushes[0], "\n        proof { lemma_heap_push(hw0, node_weights@.last()); lemma_tree_single(node_weights@.last().1, %s); lemma_cnt_push(hw0, node_weights@.last()); "
+                        "lemma_fits_push(hw0, node_weights@.last()); assert(node_weights@ =~= hw0.push(node_weights@.last())); }" % script))
+        # ---- the `while` that combines two subtrees per round
+        mw = re.search(r"\bwhile\s+[^{};]*\bnode_weights\s*\.\s*len\s*\(\s*\)[^{};]*(\{)", text[f_close:])
+        if not mw:
+            return None
+        w_open = f_close + mw.start(1)
+        w_close = match_close(text, w_open)
+        if not partial:
+            ins.append((w_open, "\n        invariant\n            node_weights@.len() >= 1,\n        decreases node_weights@.len(),\n    "))
+        else:
+            pops = _heap_pops(text, w_open + 1, w_close)
+            pushes = _heap_pushes(text, w_open + 1, w_close)
+            if pops is None or len(pops) != 2 or len(pushes) != 1 or not (pops[0][0] < pops[1][0] < pushes[0]):
+                return None
+            (e1, s1), (e2, s2) = pops
+            ins.append((w_open, "\n        invariant\n            node_weights@.len() >= 1,\n"
+                        "            %s, //@inv combining_two_subtrees_keeps_every_leaf [C08]\n"
+                        "            heap_fits(node_weights@), heap_cnt(node_weights@) == ms@.len(), //@inv no_leaf_deeper_than_its_subtree_has_leaves [C08]\n        decreases node_weights@.len(),\n    " % GH))
+            ins.append((w_open + 1, "\n        let ghost h0 = node_weights@;"))
+            for (e, tree, before, after, idx) in ((e1, s1, "h0", "h1", "i1"), (e2, s2, "h1", "h2", "i2")):
+                ins.append((e, "\n        let ghost %(a)s = node_weights@;\n        proof { let %(i)s = choose|i: int| 0 <= i < %(b)s.len() && (#[trigger] %(b)s[i]).1 == %(t)s && %(a)s == %(b)s.remove(i); "
+                            "lemma_heap_remove(%(b)s, %(i)s); lemma_cnt_remove(%(b)s, %(i)s); lemma_fits_remove(%(b)s, %(i)s); }" % dict(a=after, b=before, i=idx, t=tree)))
+            ins.append((pushes[0], "\n        proof { lemma_heap_push(h2, node_weights@.last()); lemma_cnt_push(h2, node_weights@.last()); let hf_t = node_weights@.last().1;\n"
+                        "                if leaf_seq(hf_t) =~= leaf_seq(%(a)s) + leaf_seq(%(b)s) { lemma_tree_concat(hf_t, %(a)s, %(b)s); } else if leaf_seq(hf_t) =~= leaf_seq(%(b)s) + leaf_seq(%(a)s) { lemma_tree_concat(hf_t, %(b)s, %(a)s); }\n"
+                        "                if is_combined(hf_t, %(a)s, %(b)s) { lemma_combined_fits(hf_t, %(a)s, %(b)s); } else if is_combined(hf_t, %(b)s, %(a)s) { lemma_combined_fits(hf_t, %(b)s, %(a)s); }\n"
+                        "                if tree_fits(hf_t) { lemma_fits_push(h2, node_weights@.last()); assert(node_weights@ =~= h2.push(node_weights@.last())); } }" % dict(a=s1, b=s2)))
+            # after the loop exactly one subtree is left
+            ins.append((w_close + 1, "\n    proof { if node_weights@.len() == 1 { lemma_heap_one(node_weights@); } }"))
+        out = text
+        for pos, t in sorted(ins, key=lambda x: -x[0]):
+            out = out[:pos] + t + out[pos:]
+        return out
+    return rw
+
+
+def huffman_rewrites(partial):
+    ASSERT_NE = sub("R7-assert-ne", r"assert_ne!\(node_weights\.len\(\), 0, \"[^\"]*\"\);", "assert!(node_weights.len() != 0);")
+    PATH = lit("R7-path", "crate::descriptor::TapTreeDepthError", "TapTreeDepthError", required=False)
     if not partial:
-        # the panic-freedom instance: only what `pop().expect(..)` / `assert!` / `debug_assert!` need
-        return [
-            CFG,
-            sub("R10-for-invariant", r"for \(prob, script\) in ms \{",
-                "for (prob, script) in hf_it: ms\n        invariant\n            node_weights@.len() == hf_it.index@, hf_it.index@ <= ms@.len(),\n    {"),
-            sub("R7-assert-ne", r"assert_ne!\(node_weights\.len\(\), 0, \"[^\"]*\"\);", "assert!(node_weights.len() != 0);"),
-            sub("R10-while-invariant", r"while node_weights\.len\(\) > 1 \{",
-                "while node_weights.len() > 1\n        invariant\n            node_weights@.len() >= 1,\n        decreases node_weights@.len(),\n    {"),
-            lit("R7-path", "crate::descriptor::TapTreeDepthError", "TapTreeDepthError", required=False),
-        ] + F64
-    return [
-        CFG,
-        partial_expect(r"TapTree::combine\([^()]*\)", "combine", required=False),
-        # R10: the `for` over the input vector gets a name for its iterator and an invariant
-        sub("R10-for-invariant", r"for \(prob, script\) in ms \{",
-            "proof { lemma_input_push(ms@, 0); }\n    for (prob, script) in hf_it: ms\n        invariant\n            node_weights@.len() == hf_it.index@, hf_it.index@ <= ms@.len(),\n"
-            "            heap_ms(node_weights@) =~= input_ms(ms@.take(hf_it.index@ as int)), //@inv every_input_leaf_enters_the_heap_once [C08]\n"
-            "            heap_fits(node_weights@), heap_cnt(node_weights@) == hf_it.index@,\n    {\n"
-            "        let ghost hw0 = node_weights@;\n        proof { lemma_input_push(ms@, hf_it.index@ as int); }"),
-        sub("R10-after-push", r"(node_weights\.push\(\(Reverse\(prob\), TapTree::leaf\(script\)\)\);)",
-            r"\1\n        proof { lemma_heap_push(hw0, node_weights@.last()); lemma_tree_single(node_weights@.last().1, script); lemma_cnt_push(hw0, node_weights@.last()); lemma_fits_push(hw0, node_weights@.last()); assert(node_weights@ =~= hw0.push(node_weights@.last())); }"),
-        sub("R7-assert-ne", r"assert_ne!\(node_weights\.len\(\), 0, \"[^\"]*\"\);", "assert!(node_weights.len() != 0);"),
-        sub("R10-while-invariant", r"while node_weights\.len\(\) > 1 \{",
-            "while node_weights.len() > 1\n        invariant\n            node_weights@.len() >= 1,\n"
-            "            %s, //@inv combining_two_subtrees_keeps_every_leaf [C08]\n"
-            "            heap_fits(node_weights@), heap_cnt(node_weights@) == ms@.len(), //@inv no_leaf_deeper_than_its_subtree_has_leaves [C08]\n        decreases node_weights@.len(),\n    {\n"
-            "        let ghost h0 = node_weights@;" % GH),
-        sub("R10-after-pop-1", r"(let \(p1, s1\) = node_weights\.pop\(\)\.expect\(\"[^\"]*\"\);)",
-            r"\1\n        let ghost h1 = node_weights@;\n        proof { let i1 = choose|i: int| 0 <= i < h0.len() && #[trigger] h0[i] == (p1, s1) && h1 == h0.remove(i); lemma_heap_remove(h0, i1); lemma_cnt_remove(h0, i1); lemma_fits_remove(h0, i1); }"),
-        sub("R10-after-pop-2", r"(let \(p2, s2\) = node_weights\.pop\(\)\.expect\(\"[^\"]*\"\);)",
-            r"\1\n        let ghost h2 = node_weights@;\n        proof { let i2 = choose|i: int| 0 <= i < h1.len() && #[trigger] h1[i] == (p2, s2) && h2 == h1.remove(i); lemma_heap_remove(h1, i2); lemma_cnt_remove(h1, i2); lemma_fits_remove(h1, i2); }"),
-        sub("R10-after-combine", r"(node_weights\.push\(\(\s*Reverse\(OrdF64\(p\)\),\s*(?:returns_ok_or_panics\(TapTree::combine\([^()]*\)\)|TapTree::combine\([^()]*\)\?),?\s*\)\);)",
-            r"\1\n        proof { lemma_heap_push(h2, node_weights@.last()); lemma_cnt_push(h2, node_weights@.last()); let hf_t = node_weights@.last().1;\n"
-            r"                if leaf_seq(hf_t) =~= leaf_seq(s1) + leaf_seq(s2) { lemma_tree_concat(hf_t, s1, s2); } else if leaf_seq(hf_t) =~= leaf_seq(s2) + leaf_seq(s1) { lemma_tree_concat(hf_t, s2, s1); }\n"
-            r"                if is_combined(hf_t, s1, s2) { lemma_combined_fits(hf_t, s1, s2); } else if is_combined(hf_t, s2, s1) { lemma_combined_fits(hf_t, s2, s1); }\n"
-            r"                if tree_fits(hf_t) { lemma_fits_push(h2, node_weights@.last()); assert(node_weights@ =~= h2.push(node_weights@.last())); } }"),
-        sub("R10-before-final-pop", r"(debug_assert!\(node_weights\.len\(\) == 1\);)", r"\1\n    proof { lemma_heap_one(node_weights@); }"),
-        lit("R7-path", "crate::descriptor::TapTreeDepthError", "TapTreeDepthError", required=False),
-    ] + F64
+        return [CFG, huffman_annotate(False), ASSERT_NE, PATH] + F64
+    return [CFG, partial_expect(r"TapTree::combine\([^()]*\)", "combine", required=False), huffman_annotate(True), ASSERT_NE, PATH] + F64
 
 
 GLUE = r"""
